@@ -368,8 +368,16 @@ def scenarios_for(pid, tier, r):
         some = [c for c in cfgs if c["stdin"] != "merge"]
         for i, m in enumerate(masks):
             c = some[r.below(len(some))]
+            # (the other launch options take part too: nothing done after the reset may put a signal back into the mask)
+            c = dict(c)
+            if r.chance(1, 2):
+                c["setpgid"] = True
+            if r.chance(1, 4):
+                c.update(cwd=True, cwd_path="/")
+            if r.chance(1, 4):
+                c.update(setuid=True, setgid=True)
             sc = mk_scenario("c18-%d" % n, c, mask=m, sigpipe=r.choice(["ign", "dfl"]))
-            if i % 3 == 0 and "pipe" not in (c["stdin"], c["stdout"], c["stderr"]):
+            if i % 3 == 0 and "pipe" not in (c["stdin"], c["stdout"], c["stderr"]) and not (c["stdout"] == "merge" and c["stderr"] == "merge"):
                 # launched twice in one process; in between the parent changes its SIGPIPE disposition and the mask
                 d2 = "ign" if sc["sigpipe"] == "dfl" else "dfl"
                 m2 = "".join("%02x" % r.below(256) for _ in range(8))
